@@ -18,17 +18,16 @@ nontrivial = kcommon.nontrivial
 
 
 def oracle(lines, trace):
-    bad, ok = kcommon.oracle_common(lines, trace)
-    if bad:
-        # C02 owns the clock / post / run clauses; timer clauses belong to C03
-        if bad[0].startswith(("clock/", "post/", "handler/", "crash", "trace/")):
-            return bad
-        return None
+    fails, ok = kcommon.oracle_common(lines, trace)
+    # C02 owns the clock / post / run clauses; timer clauses belong to C03
+    out = [f for f in fails if f[0].startswith(("clock/", "post/", "handler/", "crash", "trace/"))]
+    if ok is None:
+        return out
     stats, spec = ok
     main = [l.split()[1:] for l in lines if l.startswith("M ")]
     # run() returns exactly when quiescent or stopped
     if not stats["stopped_script"] and stats["unfinished"]:
-        return ("run/early-return", "run() returned although %d completions were still due and stop() was never called" % stats["unfinished"])
+        out.append(("run/early-return", "run() returned although %d completions were still due and stop() was never called" % stats["unfinished"]))
     # a second run() after a quiescent return executes nothing and leaves the clock unchanged
     xs = [l for l in trace if l.startswith("X ")]
     runs = [k for k, o in enumerate(main) if o[0] == "run"]
@@ -38,5 +37,5 @@ def oracle(lines, trace):
             xa, xb = xs[runs.index(a)], xs[runs.index(b)]
             ta, tb = xa.split()[1], xb.split()[1]
             if not xb.endswith("ret=0") or ta != tb:
-                return ("run/second-run", "second run() after quiescent return: %s then %s" % (xa, xb))
-    return None
+                out.append(("run/second-run", "second run() after quiescent return: %s then %s" % (xa, xb)))
+    return out
